@@ -199,17 +199,25 @@ where
                     let s = self.a + r - w;
                     // 2.
                     if s + F::one() + F::from(5.).unwrap().ln() >= F::from(5.).unwrap() * z {
+                        #[cfg(rand_distr_verif)]
+                        crate::verif_hooks::probe(15);
                         break;
                     }
                     // 3.
                     let t = z.ln();
                     if s >= t {
+                        #[cfg(rand_distr_verif)]
+                        crate::verif_hooks::probe(16);
                         break;
                     }
                     // 4.
                     if !(r + algo.alpha * (algo.alpha / (self.b + w)).ln() < t) {
+                        #[cfg(rand_distr_verif)]
+                        crate::verif_hooks::probe(17);
                         break;
                     }
+                    #[cfg(rand_distr_verif)]
+                    crate::verif_hooks::probe(18);
                 }
             }
             BetaAlgorithm::BC(algo) => {
@@ -223,6 +231,8 @@ where
                         let y = u1 * u2;
                         z = u1 * y;
                         if F::from(0.25).unwrap() * u2 + z - y >= algo.kappa1 {
+                            #[cfg(rand_distr_verif)]
+                            crate::verif_hooks::probe(19);
                             continue;
                         }
                     } else {
@@ -231,10 +241,14 @@ where
                         if z <= F::from(0.25).unwrap() {
                             let v = algo.beta * (u1 / (F::one() - u1)).ln();
                             w = self.a * v.exp();
+                            #[cfg(rand_distr_verif)]
+                            crate::verif_hooks::probe(20);
                             break;
                         }
                         // 4.
                         if z >= algo.kappa2 {
+                            #[cfg(rand_distr_verif)]
+                            crate::verif_hooks::probe(21);
                             continue;
                         }
                     }
@@ -245,8 +259,12 @@ where
                         - F::from(4.).unwrap().ln()
                         < z.ln())
                     {
+                        #[cfg(rand_distr_verif)]
+                        crate::verif_hooks::probe(22);
                         break;
                     };
+                    #[cfg(rand_distr_verif)]
+                    crate::verif_hooks::probe(23);
                 }
             }
         };
@@ -254,6 +272,8 @@ where
         if !self.switched_params {
             if w == F::infinity() {
                 // Assuming `b` is finite, for large `w`:
+                #[cfg(rand_distr_verif)]
+                crate::verif_hooks::probe(24);
                 return F::one();
             }
             w / (self.b + w)
